@@ -4,6 +4,7 @@ import BigtoolsModel.ZoomLevels
 import BigtoolsModel.Tiler3
 import BigtoolsModel.ZoomQueryBytes
 import BigtoolsModel.AtomsGen
+import BigtoolsModel.OverlapsGen
 /-! # C07 — bigWig zoom levels are faithful reductions of the data
 
 Property theorems (statements copied from the lemma modules, proofs by those lemmas). -/
@@ -113,3 +114,13 @@ theorem C07_source_zoom_section_handover (a e : Nat) (liveNone isLast recsEmpty 
   (gen_zoom_section_flush a e liveNone isLast recsEmpty n ips).1
 
 end Tiler2
+
+namespace RT
+
+/-- **The code's own index-pruning predicate.** `Gen.overlaps` (regenerated from `overlaps` and the functions it calls in
+    bbiread.rs on every run) is, for all arguments, the `ov` with which the search theorems are stated; zoom range queries search each level's index with it. -/
+theorem C07_source_overlaps_is_the_models_ov (q qs qe b1 b1s b2 b2e : Nat) :
+    Gen.overlaps q qs qe b1 b1s b2 b2e = ov ⟨q, qs⟩ ⟨q, qe⟩ ⟨b1, b1s⟩ ⟨b2, b2e⟩ :=
+  gen_overlaps_eq_ov q qs qe b1 b1s b2 b2e
+
+end RT
